@@ -57,6 +57,15 @@ Theorem C15_repaired_resolve_eq_protoc : forall U path elem nm m,
 Proof. exact repaired_resolve_eq_protoc_lemma. Qed.
 Print Assumptions C15_repaired_resolve_eq_protoc.
 
+(* the same repair in the form of the proposed patch (a skipNonTypes flag handed to the scopes; the
+   file scope moves on to the next package level itself): identical answers, hence the same theorem *)
+Theorem C15_patched_resolve_eq_protoc : forall U path elem nm m,
+  wf_universe U = true -> scope_ok U path elem = true -> double_dot nm = false ->
+  Spec.outcome_of m (Spec.to_spec U (go_resolve_skip U path nm (Spec.only_types m)))
+  = Spec.outcome_of m (Spec.lookup U (relative_to U path elem) nm m).
+Proof. exact patched_resolve_eq_protoc_lemma. Qed.
+Print Assumptions C15_patched_resolve_eq_protoc.
+
 (* outside the grammar: a reference with two leading dots (descriptor input only) is resolved by
    the Go code (two more dots are stripped on the way) and is unknown to protoc *)
 Theorem C15_double_dot_diverges :
